@@ -81,60 +81,73 @@ func genC17() {
 	if fd == nil {
 		fail("%s: CmdDecode.decoderMain not found", c17DecodeRel)
 	} else {
-		// toText := func(p []byte) string { ... switch { case c >= '#' && c <= '~': b.WriteByte(c); default: b.WriteByte('.') } }
+		// toText: `toText := func(p []byte) string { … case c >= '#' && c <= '~': b.WriteByte(c); default: b.WriteByte('.') … }`
+		// inside decoderMain, or the same body as a function/method of the package (switch or if/else form)
+		var body ast.Node
 		ast.Inspect(fd.Body, func(x ast.Node) bool {
 			as, ok := x.(*ast.AssignStmt)
 			if !ok || len(as.Lhs) != 1 || len(as.Rhs) != 1 {
 				return true
 			}
-			id, ok := as.Lhs[0].(*ast.Ident)
-			if !ok || id.Name != "toText" {
-				return true
+			if id, ok := as.Lhs[0].(*ast.Ident); ok && id.Name == "toText" {
+				body = as.Rhs[0]
+				return false
 			}
-			ast.Inspect(as.Rhs[0], func(y ast.Node) bool {
-				cc, ok := y.(*ast.CaseClause)
-				if !ok {
+			return true
+		})
+		if body == nil {
+			if f2 := funcDecl(c17DecodeRel, "", "toText"); f2 != nil {
+				body = f2
+			} else if f2 := funcDecl(c17DecodeRel, "CmdDecode", "toText"); f2 != nil {
+				body = f2
+			}
+			funcDecl(c17DecodeRel, "CmdDecode", "decoderMain") // constants context back to decoderMain
+		}
+		if body != nil {
+			ast.Inspect(body, func(y ast.Node) bool {
+				be, ok := y.(*ast.BinaryExpr)
+				if !ok || be.Op != token.LAND || lo >= 0 {
 					return true
 				}
-				if len(cc.List) == 0 { // default: b.WriteByte('.')
-					ast.Inspect(cc, func(z ast.Node) bool {
-						if bl, ok := z.(*ast.BasicLit); ok && bl.Kind == token.CHAR {
-							if v, ok := evalInt(bl, nil); ok {
-								sub = v
-							}
-						}
-						return true
-					})
-					return false
+				l, ok1 := be.X.(*ast.BinaryExpr)
+				r, ok2 := be.Y.(*ast.BinaryExpr)
+				if !ok1 || !ok2 {
+					return true
 				}
-				if len(cc.List) == 1 {
-					if be, ok := cc.List[0].(*ast.BinaryExpr); ok && be.Op == token.LAND {
-						l, ok1 := be.X.(*ast.BinaryExpr)
-						r, ok2 := be.Y.(*ast.BinaryExpr)
-						if ok1 && ok2 {
-							if v, ok := evalInt(l.Y, nil); ok {
-								switch l.Op {
-								case token.GEQ:
-									lo = v
-								case token.GTR:
-									lo = v + 1
-								}
-							}
-							if v, ok := evalInt(r.Y, nil); ok {
-								switch r.Op {
-								case token.LEQ:
-									hi = v
-								case token.LSS:
-									hi = v - 1
-								}
-							}
-						}
+				if v, ok := evalInt(l.Y, nil); ok {
+					switch l.Op {
+					case token.GEQ:
+						lo = v
+					case token.GTR:
+						lo = v + 1
+					}
+				}
+				if v, ok := evalInt(r.Y, nil); ok {
+					switch r.Op {
+					case token.LEQ:
+						hi = v
+					case token.LSS:
+						hi = v - 1
 					}
 				}
 				return true
 			})
-			return false
-		})
+			// the substitute: the one character constant written that is not a bound of the range
+			subs := map[int64]bool{}
+			ast.Inspect(body, func(z ast.Node) bool {
+				if ce, ok := z.(*ast.CallExpr); ok && len(ce.Args) == 1 && strings.HasSuffix(srcOf(ce.Fun), "WriteByte") {
+					if v, ok := evalInt(ce.Args[0], nil); ok {
+						subs[v] = true
+					}
+				}
+				return true
+			})
+			if len(subs) == 1 {
+				for v := range subs {
+					sub = v
+				}
+			}
+		}
 		// record kinds: the aux branch (if e.Type == rdb.RdbFlagAUX {...}) and the type switch cases
 		ast.Inspect(fd.Body, func(x ast.Node) bool {
 			switch n := x.(type) {
@@ -163,7 +176,13 @@ func genC17() {
 		fail("%s: toText's `case c >= LO && c <= HI` / default substitute not recognised", c17DecodeRel)
 	}
 	fmt.Fprintf(&b, "/-- toText of decoderMain keeps bytes in [decodeTextLo, decodeTextHi] and writes decodeTextSub otherwise -/\n")
-	fmt.Fprintf(&b, "def decodeTextLo : Nat := %d\ndef decodeTextHi : Nat := %d\ndef decodeTextSub : Nat := %d\n\n", lo, hi, sub)
+	nat := func(v int64) int64 { // (a value that was not found is reported through fail(); the file must still be valid Lean)
+		if v < 0 {
+			return 0
+		}
+		return v
+	}
+	fmt.Fprintf(&b, "def decodeTextLo : Nat := %d\ndef decodeTextHi : Nat := %d\ndef decodeTextSub : Nat := %d\n\n", nat(lo), nat(hi), nat(sub))
 	fmt.Fprintf(&b, "/-- `RDBPipeSize` of redis-shake/base (capacity of ipipe and opipe) -/\ndef decodePipeSize : Nat := %d\n\n", intConst("redis-shake/base/runner.go", "RDBPipeSize"))
 	for _, k := range []string{"Aux", "String", "List", "Hash", "Set", "ZSet"} {
 		r, ok := recs[k]
